@@ -15,4 +15,5 @@ CONSTANTS
   Depth = 15
   MaxIdle = 1
   HoldClose = FALSE
+  HoldAck = FALSE
 CHECK_DEADLOCK FALSE
